@@ -25,7 +25,11 @@ type Gen struct {
 	ikins  map[string]int
 	MaxNow int
 	keyed  []Op // earlier operations that carried an idempotency key (candidates for a client retry)
+	Vals   []string // metadata values to draw from (nil = GenVals)
 }
+
+// AdversarialVals: metadata values whose JSON needs escaping or is not ASCII (hashing, block digests, jsonb).
+var AdversarialVals = []string{"v", "café", "back\\slash", "quo\"te", "tab\there", "<&>"}
 
 func NewGen(seed int64, ledger string) *Gen {
 	return &Gen{R: rand.New(rand.NewSource(seed)), Ledger: ledger, now: 1, ikins: map[string]int{}, MaxNow: 9}
@@ -37,7 +41,11 @@ func (g *Gen) meta() map[string]string {
 	m := map[string]string{}
 	n := g.R.Intn(3)
 	for i := 0; i < n; i++ {
-		m[g.pick(GenKeys)] = g.pick(GenVals)
+		vals := g.Vals
+		if vals == nil {
+			vals = GenVals
+		}
+		m[g.pick(GenKeys)] = g.pick(vals)
 	}
 	return m
 }
